@@ -256,6 +256,18 @@ fn one_round(r: &mut Rng, srv: &mut Srv, tier: &str) {
             return;
         }
     }
+    // long strings in responses: a second, tiny table (two rows) so that the storage layer stays inside its envelope
+    for q in [
+        "CREATE TABLE wl (id BIGINT, s TEXT)".to_string(),
+        format!("INSERT INTO wl VALUES (1, '{}')", std::iter::repeat('é').take(200).collect::<String>()),
+        format!("INSERT INTO wl VALUES (2, '{}')", std::iter::repeat(*r.pick(&['x', '字'])).take(*r.pick(&[900usize, 3000])).collect::<String>()),
+        "SELECT * FROM wl".to_string(),
+        "SELECT s FROM wl WHERE id + 0 = 2".to_string(),
+    ] {
+        if !check(&mut conn, q, &mut script) {
+            return;
+        }
+    }
     // protocol-level requests
     for (q, want) in [(Request::Ping, "Pong"), (Request::Begin, "SessionStarted"), (Request::Rollback, "SessionEnd"), (Request::Commit, "Error"), (Request::Explain("SELECT * FROM w".into()), "Explain")] {
         match ask(&mut conn, &q) {
@@ -335,6 +347,19 @@ fn one_round(r: &mut Rng, srv: &mut Srv, tier: &str) {
                 ("lying-string-length", v)
             }
         };
+        // a "hostile" byte string that happens to be a well-formed administrative request (SHUTDOWN, CLOSE, CREATE, OPEN)
+        // is a valid frame, and the server obeying it is correct: such inputs are not sent
+        {
+            let mut cur = std::io::Cursor::new(&bytes);
+            if let Ok(body) = axmosdb::tcp::read_message(&mut cur) {
+                if let Ok(req) = Request::from_bytes(&body) {
+                    if matches!(req, Request::Shutdown | Request::Close | Request::Create(_) | Request::Open(_)) {
+                        report::count("server.hostile_skipped(valid administrative request)", 1);
+                        continue;
+                    }
+                }
+            }
+        }
         let Some(mut g) = connect(srv.port, Duration::from_secs(5)) else {
             viol("connect-failed", format!("connection {} refused after hostile traffic", i), J::obj());
             return;
